@@ -267,3 +267,60 @@ Definition simd_map {A B : Type} (lane_f scalar_f : A -> B) (l : list A) : list 
   let span := Nat.shiftr n 2 in
   simd_main lane_f span l ++
   (if Nat.eqb (n mod 4) 0 then [] else map scalar_f (skipn (Nat.shiftl span 2) l)).
+
+(* ------------------------------------------------------------------ *)
+(* ntt120/arithmetic_avx.rs (Primes30 lanes: lane k works modulo Q[k]) *)
+(* u64 slices are loaded as bit patterns; a __m256i stored into a [u32]
+   slice gives, per 64-bit lane, (low 32 bits, high 32 bits).           *)
+(* ------------------------------------------------------------------ *)
+Definition load_u64 (u : Z) : Z := of_u u.
+Definition store_u64 (lane : Z) : Z := to_u lane.
+Definition store_2xu32 (lane : Z) : list Z := [to_u lane mod 2 ^ 32; to_u lane / 2 ^ 32].
+
+(* cond_sub(x, q) *)
+Definition cond_sub_avx (x q : Z) : Z :=
+  let lt := mm_cmpgt q x in
+  mm_sub x (mm_andnot lt q).
+
+(* barrett_reduce(tmp, q, mu) *)
+Definition barrett_reduce_avx (tmp q mu : Z) : Z :=
+  let mask32 := mm_set1 (2 ^ 32 - 1) in                 (* u32::MAX as i64 *)
+  let tmp_hi := mm_srli tmp 32 in
+  let tmp_lo := mm_and tmp mask32 in
+  let q_hi := mm_srli (mm_mul_epu32 tmp_hi mu) 29 in
+  let q_lo := mm_srli (mm_mul_epu32 tmp_lo mu) 61 in
+  let q_approx := mm_add q_hi q_lo in
+  let r := mm_sub tmp (mm_mul_epu32 q_approx q) in
+  let r := cond_sub_avx r q in
+  cond_sub_avx r q.
+
+(* reduce_b_to_canonical(x, q, mu, pow32) *)
+Definition reduce_b_to_canonical_avx (x q mu pow32 : Z) : Z :=
+  let mask32 := mm_set1 (2 ^ 32 - 1) in
+  let x_hi := mm_srli x 32 in
+  let x_lo := mm_and x mask32 in
+  let x_hi_r := cond_sub_avx x_hi q in
+  let tmp := mm_add (mm_mul_epu32 x_hi_r pow32) x_lo in
+  barrett_reduce_avx tmp q mu.
+
+(* c_from_b_avx2 loop body, one lane *)
+Definition c_from_b_lane_avx (q mu pow32 xv : Z) : Z :=
+  let r := reduce_b_to_canonical_avx xv q mu pow32 in
+  let r_shift := barrett_reduce_avx (mm_mul_epu32 r pow32) q mu in
+  mm_or r (mm_slli r_shift 32).
+
+(* one prime lane of c_from_b_avx2 with the compile-time constants Q_VEC[k], BARRETT_MU[k] = (1<<61)/Q, POW32[k] = 2^32 % Q *)
+Definition c_from_b_k_avx (q x : Z) : list Z :=
+  store_2xu32 (c_from_b_lane_avx (load_u64 q) (load_u64 (2 ^ 61 / q)) (load_u64 (2 ^ 32 mod q)) (load_u64 x)).
+
+(* b_from_znx64_avx2 loop body, lane k (oq_vec lane = OQ[k] = Q[k] - 2^63 % Q[k]) *)
+Definition b_from_znx64_lane_avx (oq xval : Z) : Z :=
+  let i64_max := mm_set1 (2 ^ 63 - 1) in
+  let zero := mm_setzero in
+  let xv := mm_set1 xval in
+  let xl := mm_and xv i64_max in
+  let sign := mm_cmpgt zero xv in
+  let add := mm_and sign oq in
+  mm_add xl add.
+Definition b_from_znx64_k_avx (q x : Z) : Z :=
+  store_u64 (b_from_znx64_lane_avx (load_u64 (q - 2 ^ 63 mod q)) x).
